@@ -283,6 +283,26 @@ pub fn rows() -> Vec<TypeRow> {
         },
         canonical = ["d41d8cd9 0 net optional foo_1.0.dsc", "abc 18446744073709551615 x.y_1 required é"]));
 
+    // ---- debian-control/src/lib.rs: parse_identity ("Name <email>" or a bare address; nothing prints one, so the
+    // canonical-text clause does not apply) ----
+    {
+        const ID_NAMES: [&str; 5] = ["", "A", "Jelmer Vernoo\u{133}", "Doe, John", "a b  c"];
+        const ID_MAILS: [&str; 3] = ["a@b", "a.b+c@d-e.org", "\u{e9}@x"];
+        fn n() -> usize {
+            ID_NAMES.len() * ID_MAILS.len()
+        }
+        fn value(i: usize) -> (String, String, Result<String, String>) {
+            let (name, mail) = (ID_NAMES[i / ID_MAILS.len()], ID_MAILS[i % ID_MAILS.len()]);
+            let text = if name.is_empty() { mail.to_string() } else { format!("{} <{}>", name, mail) };
+            let back = debian_control::parse_identity(&text).map(|b| format!("{:?}", b)).map_err(|e| format!("{:?}", e));
+            (format!("{:?}", (name, mail)), text, back)
+        }
+        fn reprint(s: &str) -> Result<String, String> {
+            debian_control::parse_identity(s).map(|(n, m)| if n.is_empty() { m.to_string() } else { format!("{} <{}>", n, m) }).map_err(|e| format!("{:?}", e))
+        }
+        v.push(TypeRow { ty: "parse_identity (name, email)", n_values: n, value, canonical: &["A B <a@b>", "a@b"], reprint, keywords: &[], case_insensitive: false });
+    }
+
     // ---- debian-control/src/relations.rs ----
     {
         use debian_control::relations::{BuildProfile, VersionConstraint};
